@@ -4,7 +4,7 @@
   every end-of-block step; the per-validator target is checked by the monitor on every observed rebalance.
 -/
 import AllianceProofs
-import Generated.Arith
+import Generated.Tables
 import Generated.Facts
 namespace Alliance
 namespace C10
